@@ -175,6 +175,8 @@ func (r *Decoder) Next() bool {
 
 			switch {
 			case r0.Rune == '.':
+				r.commit(r0.AsDecodedRunes())
+
 				goto QUAD_DONE
 			case r0.Rune == '#':
 				err = r.drainLine(cursorio.DecodedRuneList{r0})
